@@ -241,3 +241,34 @@ Example C20_old_precipitation_recorded_psd_refuted :
      | None => false
      end = true.
 Proof. split; vm_compute; reflexivity. Qed.
+
+(* ---- file names ------------------------------------------------------------------------------- *)
+Definition ex_name : namefn := NameEnsureSuffix ".npz".
+
+Example ex_names :
+  apply_name ex_name "NiCrAl_T1473.15" = "NiCrAl_T1473.15.npz" /\ apply_name ex_name "run.npz" = "run.npz"
+  /\ apply_name ex_name "a.npz.bak" = "a.npz.bak.npz" /\ apply_name ex_name "npz" = "npz.npz" /\ apply_name ex_name "" = ".npz".
+Proof. repeat split; vm_compute; reflexivity. Qed.
+
+(* three models saved side by side under names that differ only after the last dot: each comes back *)
+Example ex_files_side_by_side :
+  let fs := fs_saves nat ex_name (fun _ => None) [("T1473.15", 1); ("T1473.65", 2); ("T1474.15", 3)] in
+  fs_load nat ex_name fs "T1473.15" = Some 1 /\ fs_load nat ex_name fs "T1473.65" = Some 2 /\ fs_load nat ex_name fs "T1474.15" = Some 3
+  /\ fs_load nat ex_name fs "T1473" = None.
+Proof. repeat split; vm_compute; reflexivity. Qed.
+
+Example ex_files_theorem_applies :
+  fs_load nat ex_name (fs_saves nat ex_name (fun _ => None) ([("a.1", 1)] ++ ("a.2", 2) :: [("a.3", 3)])%list) "a.2" = Some 2.
+Proof.
+  apply (C20_files_any_name_function nat ex_name ex_name (fun _ => None) [("a.1", 1)] "a.2" 2 [("a.3", 3)] eq_refl).
+  intros n' d' Hin Hal. unfold alias in Hal. destruct Hin as [H|[]]. inversion H; subst. simpl in Hal.
+  destruct Hal as [A|[A|A]]; discriminate.
+Qed.
+
+(* a name function that replaces the extension is not of the generated form; its effect in the file-system
+   model: the second save overwrites the first (refutation witness for `names that differ after the last dot`) *)
+Example C20_replace_extension_refuted :
+  let strip := fun n : string => if String.eqb n "T1473.15" || String.eqb n "T1473.65" then "T1473.npz" else n in
+  let fs : fsys nat := fun k => if String.eqb k (strip "T1473.65") then Some 2 else if String.eqb k (strip "T1473.15") then Some 1 else None in
+  fs (strip "T1473.15") = Some 2.
+Proof. vm_compute. reflexivity. Qed.
